@@ -18,6 +18,7 @@ claimed["C12"] = ("for every parsed frame (library encodings of 23 message kinds
 claimed["C02"] = ("an independent length-only walker written from the OpenFlow 1.3.5 / nicira-ext.h grammar (match and OXM TLVs, instructions, standard and Nicira actions incl. conntrack nesting, learn specs, nat presence bitmap, set-field / reg_load2 padding, buckets, hello elements, multipart requests, vendor messages, bundled messages and properties) is executed symbolically on the encoding of every controller-originated message kind, every action kind in all variants, every match-field kind, richer flow-mod / group-mod / packet-out shapes, bundle-add wrapping each kind, builder histories with prepend, late-growing children and nat setters in any order with sizing in between: every declared length, alignment, zero padding and type code rule holds and the walk ends exactly at the end (SMT over all field values)", "4 C02")
 claimed["C03"] = ("reference writers transcribed from OpenFlow 1.3.5 and nicira-ext.h are fed the same constructor arguments as the library and the encodings compared byte for byte (one SMT query per element, all field values at once): all 44 match-field kinds with and without mask, matches, all 27 action kinds in every variant (64 nat range subsets, flag combinations, conntrack zone forms and nesting, 5 learn-spec kinds with n_bits 1..1023), instructions incl. prepend order, flow-mod (all commands), group-mod with buckets, packet-out, port-mod, set-config, multipart requests, Nicira and bundle vendor messages", "4 C03")
 claimed["C04"] = ("reference writers (OpenFlow 1.3.5 / nicira-ext.h layouts) produce the bytes of every switch-originated kind from symbolic field values - hello with version-bitmap elements, error, experimenter error, echo, barrier reply, features reply, get-config reply, packet-in (match + Ethernet frame + payload), flow-removed, port-status with port description, multipart replies desc / flow (match, instructions, actions) / aggregate / table / port / queue, tlv-table reply, bundle control reply - Parse is executed symbolically on them and the dynamic type and every exported field, list element and payload byte of the result is compared with what was written (SMT over all values; lists <= 2/3 elements)", "4 C04")
+claimed["C17"] = ("NewMatchField executed symbolically (math/big modelled as sign + 256-bit magnitude on the real struct layout, reflect from the concrete dynamic type) for uint32 -> 4-byte register, uint64 -> 8-byte metadata, int64 -> 8-byte tunnel id, []byte/HardwareAddr -> 6-byte Ethernet address with data at full width and window offset/width symbolic in [-2,130], shift flag both ways; *big.Int -> 16-byte xxreg / ct_label with 128-bit symbolic data over a list of concrete windows; unmasked forms; one SMT verdict per assertion: value placed at the window, mask exactly the window, no value bit outside the mask, sizes == field width, register form == NewRegMatchField bytes, every unrepresentable input (negative, too wide, window outside the field) is an error and never a panic or unbounded allocation, caller's []byte / *big.Int unmodified", "4 C17")
 pending = {}
 allp = [json.loads(l)["id"] for l in open("/verif/properties.jsonl")]
 TRUST = "go/ssa lowering, gc compiler, Go runtime, SMT solvers (z3 4.8.12 decides; z3 5.1.0 and cvc5 1.0 cross-check sampled verdict queries), the environment stubs listed in each evidence file; nothing outside the per-harness bounds in DESIGN.md §4"
